@@ -642,6 +642,7 @@ def run_e2(prop, tier, seed, families, K, configs, allow_regions=(), max_paths=6
         'families': fam_sizes,
         'status_counts': status,
         'excluded_by_region_query': regions,
+        'slowest_programs': sorted(((r.get('elapsed_s', 0), r['text']) for r in results), reverse=True)[:5],
         'programs_not_explored_to_the_end_within_budget': over_budget,
         'bounds': {'complete_words_K': '0..%d (families tagged K=3: 0..3)' % K, 'word_length_L': '<= longest vocabulary item + 1 (max seen %s)' % bounds.get('max_L'),
                    'alphabet': 'characters of the vocabulary and command outputs plus z = : (no glob metacharacters)',
@@ -710,6 +711,7 @@ def family_c17(tier, seed):
     out.append(gram.mk('cmd', S(Cmd(probe('c1')), Cmd(probe('c2')), L('x'))))
     # tables of the main automaton and of several within-word automata live in one dynamic scope: a command / placeholder
     # at top level together with within-word expressions that do and do not contain one
+    loops = []
     top_c, top_any = Cmd(probe('c1')), Ref('ANY')
     w_plain = Sub(L('m='), A(L('f'), L('s')))
     w_plain2 = Sub(L('p'), Opt(L('q')))
@@ -719,10 +721,12 @@ def family_c17(tier, seed):
         for ws in ((w_plain, w_cmd), (w_plain, w_any), (w_plain2, w_cmd), (w_plain, w_cmd, w_any)):
             out.append(gram.mk('cmd', S(top, A(*ws), L('end'))))
             out.append(gram.mk('cmd', S(A(*ws), top, L('end'))))
-            out.append(gram.mk('cmd', S(Many(A(*(ws + (top,)))), L('end'))) if top is top_c else gram.mk('cmd', S(A(*ws), Opt(top))))
+            (loops if top is top_c else out).append(gram.mk('cmd', S(Many(A(*(ws + (top,)))), L('end'))) if top is top_c
+                                                     else gram.mk('cmd', S(A(*ws), Opt(top))))
     out.append(gram.mk('cmd', S(L('a'), Ref('U'), Cmd(probe('c2')))))
     out.extend(gen_e2(seed + 17, 20 if tier == 'quick' else 200, allow_descr=False))
-    return [('commands at every syntactic position', out)]
+    # the repeated mixtures have many paths: one complete word in the quick tier, two in the thorough one
+    return [('commands at every syntactic position', out), ('repeated mixtures of commands and within-word items', loops, 1 if tier == 'quick' else 2)]
 
 
 def check_C17(tier, seed):
